@@ -696,6 +696,12 @@ func (f For) byteCode(srcsel int, fl flags.Pass, cr compResult) bytecode.Type {
 	discard := fl.Data().Discard
 	returning := fl.Data().Returning
 
+	// a return in the body leaves every enclosing loop of the function
+	ctxLo := ctxID
+	if fl.Data().InFor {
+		ctxLo = fl.Data().CtxLo
+	}
+
 	var assignAddr int
 
 	if !discard {
@@ -765,7 +771,7 @@ func (f For) byteCode(srcsel int, fl flags.Pass, cr compResult) bytecode.Type {
 	body := f.Body.byteCode(0, fl.Data().Pass(
 		flags.WithInFor(true),
 		flags.WithCtxID(ctxID+len(f.VarRefs.Elems)),
-		flags.WithCtxLo(ctxID),
+		flags.WithCtxLo(ctxLo),
 		flags.WithCtxHi(ctxID+len(f.VarRefs.Elems)-1),
 		flags.WithDiscard(discard)), cr)
 
